@@ -217,6 +217,12 @@ impl<'t, 'c> Gen<'t, 'c> {
                 return Expr::Const(n, t);
             }
         }
+        if leaf && self.t.chance(1, 40) {
+            // a name with a subscript that is declared nowhere reads as zero of the name's type
+            let ty = self.num_ty();
+            let k = self.t.choose(3) as i64;
+            return Expr::BuiltIn { name: format!("ZU{}{}", ty.suffix() as u32 % 7, ty.suffix()), args: vec![Expr::Lit(Lit::Whole(k))], ty };
+        }
         if leaf {
             return match self.t.choose(4) {
                 0 => {
@@ -276,7 +282,15 @@ impl<'t, 'c> Gen<'t, 'c> {
             7 => {
                 // MOD on whole-number typed operands
                 let a = self.whole_expr(depth - 1);
-                let b = if self.cfg.errors && self.t.chance(1, 25) { Expr::Lit(Lit::Whole(0)) } else { Expr::Lit(Lit::Whole(*self.t.pick(&[3, 2, 5, 7, 10, 3, 60000, 40001]))) };
+                let b = if self.cfg.errors && self.t.chance(1, 25) {
+                    Expr::Lit(Lit::Whole(0))
+                } else if self.cfg.floats && self.t.chance(1, 8) {
+                    // a fractional divisor is rounded first: 2.75 -> 3, 0.75 -> 1 and (an error, when they are generated) 0.25 -> 0
+                    let quarters = if self.cfg.errors { *self.t.pick(&[11i64, 3, 1, 13, 27]) } else { *self.t.pick(&[11i64, 3, 13, 27]) };
+                    Expr::Lit(Lit::Frac { num: quarters, shift: 2, double: self.t.chance(1, 3) })
+                } else {
+                    Expr::Lit(Lit::Whole(*self.t.pick(&[3, 2, 5, 7, 10, 3, 60000, 40001])))
+                };
                 Expr::Paren(Box::new(Expr::Bin(BinOp::Mod, Box::new(self.paren_if_binary(a)), Box::new(b))))
             }
             8 => {
@@ -770,7 +784,17 @@ impl<'t, 'c> Gen<'t, 'c> {
                 (lit_i(from_v + len * 2), lit_i(from_v), Some(Expr::Un(UnOp::Neg, Box::new(Expr::Paren(Box::new(Expr::Bin(BinOp::Add, Box::new(lit_i(1)), Box::new(lit_i(1)))))))))
             }
             _ => {
-                if cty.is_whole() {
+                if cty.is_whole() && self.cfg.floats && self.t.chance(1, 3) {
+                    // a whole step of another type than the counter: a LONG- or DOUBLE-typed expression for an INTEGER / LONG
+                    // counter (counter + step must come back as a value of the counter's type). Fractional steps for
+                    // whole-number counters stay out: the statements do not say whether the step is converted once or on
+                    // every pass.
+                    match self.t.choose(3) {
+                        0 => (lit_i(from_v), lit_i(from_v + len), Some(Expr::Paren(Box::new(Expr::Bin(BinOp::Sub, Box::new(Expr::Lit(Lit::Whole(40001))), Box::new(Expr::Lit(Lit::Whole(40000)))))))),
+                        1 => (lit_i(from_v), lit_i(from_v + len * 2), Some(Expr::Lit(Lit::WholeDouble(2)))),
+                        _ => (lit_i(from_v + len), lit_i(from_v), Some(Expr::Paren(Box::new(Expr::Bin(BinOp::Sub, Box::new(Expr::Lit(Lit::Whole(40000))), Box::new(Expr::Lit(Lit::Whole(40001)))))))),
+                    }
+                } else if cty.is_whole() {
                     (lit_i(from_v), lit_i(from_v + len), Some(lit_i(1)))
                 } else {
                     // half steps for floating counters
@@ -1354,6 +1378,13 @@ impl<'t, 'c> Gen<'t, 'c> {
             }
             1 => vec![Stmt::If { arms: vec![(lit_i(-1), body)], else_: None }],
             7 => {
+                if self.t.chance(1, 2) {
+                    // the block is followed by ELSEIF blocks (true or false) and no ELSE: none of them may run
+                    let e1 = self.tok("e");
+                    let e2 = self.tok("e");
+                    let c1 = if self.t.chance(1, 2) { lit_i(-1) } else { lit_i(0) };
+                    return vec![Stmt::If { arms: vec![(lit_i(-1), body), (c1, vec![e1]), (lit_i(-1), vec![e2])], else_: None }];
+                }
                 // the block is followed by an ELSE block that must not run
                 let e = self.tok("e");
                 vec![Stmt::If { arms: vec![(lit_i(-1), body)], else_: Some(vec![e]) }]
@@ -1657,9 +1688,11 @@ impl<'t, 'c> Gen<'t, 'c> {
                 }
                 _ => {
                     // forward GOTO over a token; rarely a stray RETURN / RESUME
-                    match self.t.choose(8) {
+                    match self.t.choose(9) {
                         0 => main.push(Stmt::Return),
                         1 => main.push(Stmt::Resume(ResumeKind::Next)),
+                        // RESUME <label> reached while no error is being handled: error 20 like the other forms
+                        8 => main.push(Stmt::ResumeLabel(resume_targets[self.t.choose(nh)].clone())),
                         _ => {
                             let l = self.new_label("LF");
                             main.push(Stmt::Goto(l.clone()));
